@@ -8,7 +8,7 @@ from sa.emit import Elem, Opt, Rep, walk_elems
 from sa.flow import show, sig, subterms
 from sa.model import AnalysisError, norm, parent, walk_no_nested
 
-from .common import alts, callers_of, commands, is_call, is_const, loop_iteration_paths, prov, unshipped_modules
+from .common import include_rules, alts, callers_of, commands, is_call, is_const, loop_iteration_paths, prov, unshipped_modules
 from .xmlcommon import documents
 
 SPEC = "ascmhl.ignore.MHLIgnoreSpec"
@@ -385,6 +385,8 @@ def run(report, p):
                     elif kind != "raise":
                         r7.check(False, t, trail[-2].ast if len(trail) > 1 else n.ast, f"the listing loop can be left early ({kind})", witness=g.fmt_path(trail))
 
+    # ---- rules shared with other properties (same mechanism, same rule, reported under every property it can break)
+    include_rules(report, p, 'c02', ['R2.1'], 'ignored names are dropped (and only those) inside the traversal')
     report.not_decided += ["pathspec matching semantics for concrete patterns", "that ignored entries are absent from concrete record sets / directory hashes at run time"]
 
 
